@@ -62,6 +62,18 @@ CHECKS = {
              "cut pairs (running maximum) and exactness without compression.",
         design_ref="DESIGN.md section 5 C05",
         note="Decoder abstracted by a need function; scaled constants; seed-chosen scenarios."),
+    "C06": dict(
+        technique="TLA+ Format operators (FORMAT.md over the Writer model's state) evaluated by TLC on segment lists decoded from "
+                  "real archives by an independent implementation (trace validation, both directions); TLA+ GcmSplit model of the incremental AES-GCM core with every split replayed",
+        text="Archives written by the real writer for Writer-model behaviours are decoded by a from-scratch implementation of "
+             "FORMAT.md (aes-gcm, hkdf, x25519-dalek, brotli, hand-written bincode) and TLC checks header, per-chunk counter "
+             "and lengths, tag verification, block sizes, SizesInfo, typed blocks, end marker and index against the Format "
+             "operators; archives produced by the independent encoder from the same model state must be read identically "
+             "by the library; TLC checks that GHASH sees the canonical blocking for every split (GcmSplit) and every split "
+             "schedule is run on the real core against the aes-gcm crate.",
+        design_ref="DESIGN.md section 5 C06",
+        note="Structure is decided by the specification; bit-level primitives are delegated to reference crates; the "
+             "independent codec is trusted."),
     "C09": dict(
         technique="TLA+ Writer model with every call enabled in every state (TLC: RefusedIsNoOp action property, "
                   "ShortNeverOk, AllOkThenReadable); complete call graph incl. refused self-loops replayed into the real ArchiveWriter",
